@@ -164,6 +164,7 @@ RULE_CLAUSES = {
     'BACKTRACK': 'the per-branch state of a recursive descent is passed by value or explicitly put back after the last recursive call (BACKTRACK)',
     'CONGRMATCH': 'a congruence rule is tested for containment in the very closure it is then added to (CONGRMATCH)',
     'REFSTABLE': 'references handed out by get-or-create functions point into reference-stable containers, and callbacks that keep the address of their argument are applied to container-owned storage (REFSTABLE)',
+    'STATICSTATE': 'no operation keeps a mutable static / thread_local local that is not reset before use (STATICSTATE)',
     'SIBLING': 'sibling functors hold and initialise the same caches and agree on the shape of their shared calls (SIBLING)',
     'FORWARD': 'facade methods forward every argument, in order, to the same-named core method (FORWARD)',
     'TUPLEPOS': 'position-wise tuple handling never reorders, deduplicates or drops positions (TUPLEPOS)',
